@@ -29,12 +29,15 @@ static void __havoc_str(struct std_string *s) { CW(s, 0) = __g2c_nondet_ulong();
 void _ZNSaIcEC1Ev(void *this) { (void)this; }
 void _ZNSaIcED1Ev(void *this) { (void)this; }
 
+#ifndef STR_FROM_CSTR_HOOK
+#define STR_FROM_CSTR_HOOK(str, cstr)
+#endif
 /* ---------------- std::string ---------------- */
 void _ZNSt7__cxx1112basic_stringIcSt11char_traitsIcESaIcEEC1Ev(struct std_string *this) { SZ(this) = 0; }
 void _ZNSt7__cxx1112basic_stringIcSt11char_traitsIcESaIcEED1Ev(struct std_string *this) { LIVE(this, 32, "std::string::~string"); }
 /* string(const char*, const allocator&) : any length */
 void _ZNSt7__cxx1112basic_stringIcSt11char_traitsIcESaIcEEC1EPKcRKS3_(struct std_string *this, const char *s, const void *a)
-{ (void)a; __CPROVER_assert(s != 0, "std::string(const char*): construction from null is not valid"); SZ(this) = __g2c_nondet_ulong(); __CPROVER_assume(SZ(this) <= MAXLEN); __havoc_str(this); }
+{ (void)a; __CPROVER_assert(s != 0, "std::string(const char*): construction from null is not valid"); SZ(this) = __g2c_nondet_ulong(); __CPROVER_assume(SZ(this) <= MAXLEN); __havoc_str(this); STR_FROM_CSTR_HOOK(this, s) }
 /* string(const string&) */
 void _ZNSt7__cxx1112basic_stringIcSt11char_traitsIcESaIcEEC1ERKS4_(struct std_string *this, const struct std_string *o)
 { LIVE((void *)o, 32, "std::string(const string&)"); CW(this, 0) = CW(o, 0); CW(this, 1) = CW(o, 1); CW(this, 2) = CW(o, 2); CW(this, 3) = CW(o, 3); }
